@@ -34,7 +34,8 @@ class CHECK(Check):
             "(extra precision, odd spacing, '+' signs, right-aligned literals, trailing garbage, comments, blank lines, "
             "missing final newline). Precondition 'parsed values fit their fields' is evaluated per case by the model "
             "(others counted and skipped). A ninth of the cycles go through files on disk with the file class's declared encoding (utf-8 / latin-1 / cp1252). Observed: y = write(read(x)) and write(read(y)). non-trivial = x contains a "
-            "typed line that is not already canonical (y != x) or a default line between typed lines; distinct = hash")
+            "typed line that is not already canonical (y != x) or a default line between typed lines; distinct = hash"
+            " Later additions: cycles through disk with utf-8/latin-1/cp1252, contents beginning with U+FEFF, class hierarchies.")
 
     def gen(self, tier, rng):
         n = 2500 if tier == "quick" else 60000
